@@ -368,7 +368,7 @@ fn main() {
 
                 // Output as JSON
                 if lint.json {
-                    let mut printer = JSONPrint::new(diags);
+                    let mut printer = JSONPrint::new(diags, lint.all_files);
                     printer.display_errors(&parser);
                 }
                 // Pretty print output
